@@ -246,8 +246,55 @@ def _names_in(fn):
     return out
 
 
+_FLIP = {ast.Lt: ast.Gt, ast.Gt: ast.Lt, ast.LtE: ast.GtE, ast.GtE: ast.LtE, ast.Eq: ast.Eq,
+         ast.NotEq: ast.NotEq}
+
+
+def orient_comparisons(tree):
+    """one spelling for ``1 < x`` / ``x > 1`` and ``UnitTests != ly`` / ``ly != UnitTests``: in a single
+    comparison the more constant operand goes to the right (literal > module-level name > anything
+    that involves a local, a parameter or self).  Operands with calls are left alone (evaluation
+    order)."""
+    def locals_of(fn):
+        out = set()
+        for n in ast.walk(fn):
+            if isinstance(n, ast.Name) and isinstance(n.ctx, (ast.Store, ast.Del)):
+                out.add(n.id)
+            elif isinstance(n, ast.arg):
+                out.add(n.arg)
+            elif isinstance(n, ast.ExceptHandler) and n.name:
+                out.add(n.name)
+        return out
+
+    def rank(e, bound):
+        if isinstance(e, ast.Constant):
+            return 3
+        names = [x.id for x in ast.walk(e) if isinstance(x, ast.Name)]
+        if any(isinstance(x, (ast.Call, ast.Await, ast.Yield, ast.NamedExpr, ast.Subscript))
+               for x in ast.walk(e)):
+            return 0
+        if names and all(nm not in bound and nm != 'self' for nm in names):
+            return 2
+        return 1
+
+    def visit(node, bound):
+        for c in ast.iter_child_nodes(node):
+            b = bound
+            if isinstance(c, (ast.FunctionDef, ast.AsyncFunctionDef, ast.Lambda)):
+                b = bound | locals_of(c)
+            visit(c, b)
+            if isinstance(c, ast.Compare) and len(c.ops) == 1 and type(c.ops[0]) in _FLIP:
+                l, r = c.left, c.comparators[0]
+                rl, rr = rank(l, b), rank(r, b)
+                if rl and rr and rl > rr:
+                    c.left, c.comparators, c.ops = r, [l], [_FLIP[type(c.ops[0])]()]
+    visit(tree, set())
+    return tree
+
+
 def canonicalise(tree, modname, log=None):
     """rename, in place, the locals that play the roles of TABLE to their canonical names"""
+    orient_comparisons(tree)
     for qual, roles in TABLE.items():
         mod, _, rest = qual.partition('.')
         if mod != modname:
